@@ -426,6 +426,46 @@ def scratch_module(ctx, files, modpath="example.com/m", gomod=None):
     return d
 
 
+
+class FifoFeeder:
+    """A named pipe at `path` that hands `data` to every reader that opens it (stat size 0, content only arrives by reading to end of file): what
+    `--config <(gen)`, `boilerplate-file: /dev/stdin` or a secrets mount look like to the tool. The feeder never blocks the harness: it polls for a
+    reader with a non-blocking open and is stopped by close(). Its timing decides nothing: a verdict only looks at what the tool did with the content."""
+
+    def __init__(self, path, data):
+        import threading
+        self.path, self.data, self.stop, self.served = path, data if isinstance(data, bytes) else data.encode(), False, 0
+        if os.path.lexists(path):
+            os.unlink(path)
+        os.mkfifo(path)
+        self.t = threading.Thread(target=self._run, daemon=True)
+        self.t.start()
+
+    def _run(self):
+        import errno, time
+        while not self.stop:
+            try:
+                fd = os.open(self.path, os.O_WRONLY | os.O_NONBLOCK)
+            except OSError as e:
+                if e.errno in (errno.ENXIO, errno.ENOENT):
+                    time.sleep(0.01)
+                    continue
+                return
+            try:
+                os.set_blocking(fd, True)
+                os.write(fd, self.data)
+                self.served += 1
+            except OSError:
+                pass
+            finally:
+                os.close(fd)
+            time.sleep(0.05)   # let the reader see end of file before the next open can succeed
+
+    def close(self):
+        self.stop = True
+        self.t.join(timeout=5)
+
+
 # --------------------------------------------------------------------------- snapshots
 
 def snapshot(root, skip=()):
